@@ -16,7 +16,7 @@ UNITS = ['runtime/xml.cpp']
 EXPLANATION = (
     "Decided: R32.1 for each decoding loop in InplaceXlate: (a) does the search resume after the replaced text (offset argument derived from "
     "the match) or restart at 0; (b) can its replacement alphabet contain the first character of its own pattern or of a pattern applied "
-    "later. A loop that restarts at 0 with such an alphabet decodes its own output again (`&amp;lt;` → `&lt;` → `<`). NOT decided: anything "
+    "later. A loop that restarts at 0 with such an alphabet decodes its own output again (`&amp;lt;` → `&lt;` → `<`). R32.2 both path lookups descend with the remaining path and select children by the next component; R32.3 a loop that resumes at an offset advances it by what it inserted; R32.4 a loop that searches from an offset hands the same offset to every consumer of the match (Replace/Erase have no offset parameter); R32.5 the attribute map and the child index are keyed by the exact name (default std::string ordering; a case-folding comparator is a violation). NOT decided: anything "
     "else about trees or arbitrary input.")
 
 X = 'XmlElement::'
